@@ -279,6 +279,8 @@ def run(chk):
     from lib import failpure
     failpure.run_wrapping_bounds(chk, [("asmjit/core/codeholder.cpp", r"asmjit::CodeHolder::(copy_section_data|copy_flattened_data|flatten|code_size|reserve_buffer|grow_buffer)$")],
                                  fixture="/verif/fixtures/asmjit/wrapping_bound.cpp", floor=2)
+    from lib import copyevery
+    copyevery.run(chk)
     return chk.finish(
         level="other",
         explanation=("Structural clauses over CodeHolder's layout/copy functions: every write into the caller's buffer is proved to stay in "
